@@ -599,6 +599,39 @@ where
     }
 }
 
+// Verification hooks.
+#[cfg(mini_moka_verif)]
+impl<K, V, S> Cache<K, V, S>
+where
+    K: Hash + Eq + Send + Sync + 'static,
+    V: Clone + Send + Sync + 'static,
+    S: BuildHasher + Clone + Send + Sync + 'static,
+{
+    /// Installs a mock expiration clock (also re-bases the periodic-sync deadline
+    /// on it) and returns the handle that advances it.
+    pub fn verif_install_mock_clock(&self) -> crate::verif::MockClock {
+        self.base.verif_install_mock_clock()
+    }
+
+    /// Describes the complete internal state (see `BaseCache::verif_snapshot`).
+    pub fn verif_snapshot(
+        &self,
+        key_id: impl Fn(&K) -> u64,
+        value_id: impl Fn(&V) -> u64,
+    ) -> crate::verif::Snapshot {
+        self.base.verif_snapshot(key_id, value_id)
+    }
+
+    /// The popularity estimate admission would read for `key` right now.
+    pub fn verif_estimate<Q>(&self, key: &Q) -> u8
+    where
+        Arc<K>: Borrow<Q>,
+        Q: Hash + Eq + ?Sized,
+    {
+        self.base.verif_estimate(key)
+    }
+}
+
 // For unit tests.
 #[cfg(test)]
 impl<K, V, S> Cache<K, V, S>
